@@ -197,6 +197,16 @@ pub(crate) enum Expr {
 }
 
 impl Expr {
+    /// The variable at the root of an index / field access chain (`a` in `a[0].x[1]`), if there is one.
+    pub(crate) fn root_ident(&self) -> Option<&super::Ident> {
+        match self {
+            Expr::Value(Value::Ident(ident)) => Some(ident),
+            Expr::Index { lhs_raw, .. } => lhs_raw.root_ident(),
+            Expr::DotLookup { lhs, .. } => lhs.root_ident(),
+            _ => None,
+        }
+    }
+
     pub(crate) fn validate(
         &self,
         flags: &TypecheckFlags<impl Deref<Target = ClassType> + Debug>,
@@ -234,8 +244,28 @@ impl Expr {
                             }
                             Cow::Owned(lhs.for_type(flags)?)
                         }
-                        index @ Expr::Index { .. } => Cow::Owned(index.for_type(flags)?),
-                        Expr::DotLookup { expected_type, .. } => Cow::Borrowed(expected_type),
+                        index @ Expr::Index { .. } => {
+                            if let Some(root) = index.root_ident() {
+                                if root.is_const() {
+                                    bail!(
+                                        "cannot reassign using {op} to an element of {}, which is const",
+                                        root.name()
+                                    )
+                                }
+                            }
+                            Cow::Owned(index.for_type(flags)?)
+                        }
+                        lookup @ Expr::DotLookup { expected_type, .. } => {
+                            if let Some(root) = lookup.root_ident() {
+                                if root.is_const() {
+                                    bail!(
+                                        "cannot reassign using {op} to a field of {}, which is const",
+                                        root.name()
+                                    )
+                                }
+                            }
+                            Cow::Borrowed(expected_type)
+                        }
                         _ => bail!("invalid left operand for {op} (cannot apply to {})", lhs.for_type(flags)?),
                     }
                 } else {
